@@ -1049,9 +1049,11 @@ class ParticleS2(Unit):
         inr = sv.and_(sv.cmp(">=", n0, 0), sv.cmp("<", n0, T), sv.cmp(">=", i0, 0), sv.cmp("<", i0, N))
         # r_max = the largest bin centre = (ndelta - 1/2) rdelta (assumed max contract: attained at a witness position and
         # >= the last element; rdelta > 0)
-        rmax_code = out.frame.env.get("rmax")
+        # (observed at the code's .max() call, not through a local name)
         rmax = sv.mul(sv.sub(nb, sv.div(1, 2)), rd)
-        yield "lemma:r_max=(ndelta-1/2)*rdelta", (sv.cmp("==", rmax_code, rmax) if sv.is_scalar(sv.norm(rmax_code)) else False), {"solver_opts": {}}
+        mx = [e for e in out.state.trace if e[0] == "minmax" and e[1] == "max"]
+        rmax_code = mx[0][2] if len(mx) == 1 else None
+        yield "lemma:r_max=(ndelta-1/2)*rdelta", (sv.cmp("==", rmax_code, rmax) if rmax_code is not None else len(mx) == 0), {"solver_opts": {}}
         # j(t) = t + [t >= i] maps [0, N-1) one-to-one onto {0..N-1} \ {i}
         t1, t2, j1 = sv.integer("t1"), sv.integer("t2"), sv.integer("j1")
         jt = lambda t: sv.ite(sv.cmp("<", t, i0), t, sv.add(t, 1))
@@ -1062,7 +1064,7 @@ class ParticleS2(Unit):
             sv.implies(sv.and_(rngt(t1), rngt(t2), sv.cmp("<", t1, t2)), sv.cmp("<", jt(t1), jt(t2))),
             sv.implies(sv.and_(sv.cmp(">=", j1, 0), sv.cmp("<", j1, N), sv.cmp("!=", j1, i0)), sv.and_(rngt(inv), sv.cmp("==", jt(inv), j1))))), {"solver_opts": {}})
         # S2_i: with r_max replaced by the code's value (equal by the lemma clause)
-        rm = rmax_code if sv.is_scalar(sv.norm(rmax_code)) else rmax
+        rm = rmax_code if rmax_code is not None else rmax
         g = lambda b: self.g_spec(inp, n0, i0, b, rm)
         want = sv.mul(sv.mul(sv.mul(sv.neg(d - 1), sv.PI), rho),
                       trapezoid(lambda k: s2_integrand(g(k)[0], g(k)[1], d), lambda k: g(k)[1], nb, M=SVM))
@@ -1180,7 +1182,79 @@ def _replay_particle_s2(case, clause, model, seed):
     return {"ran": True, "failed": False, "searched": 25}
 
 
-UNITS = [Gyration(), S2Integral(), Nematic(), Tetrahedral(), ParticleS2()]
+class S2Init(Unit):
+    """S2.__init__: the object invariant particle_s2 relies on (rho = N / V with V the product of the box lengths)"""
+    module = PAIR
+    qualname = "S2.__init__"
+    prop = "C17"
+    timeout = 10
+
+    def cases(self):
+        return ["d=2", "d=3"]
+
+    def setup(self, ctx, case):
+        from pyvc.interp import load_module, new_obj
+        d = int(case[2])
+        T, N, K = ctx.int("T"), ctx.int("N"), ctx.int("K")
+        for c in (T >= 1, N >= 1, K >= 1):
+            ctx.assume(c)
+        snaps, acc = make_snapshots(ctx, "trj", T, N, d)
+        for c in range(d):
+            ctx.assume(acc["L"](c) > 0)
+        sig = ctx.array("sigmas", (K, K), "float", origin="argument sigmas")
+        ppp = ctx.array("ppp", (d,), "int", origin="argument ppp")
+        rd, nb = ctx.real("rdelta"), ctx.int("ndelta")
+        obj = new_obj(load_module(PAIR).get_class("S2"), {}, frozen=False)
+        inp = dict(d=d, T=T, N=N, acc=acc, obj=obj, snaps=snaps, sig=sig, ppp=ppp, rd=rd, nb=nb)
+        return [obj, snaps, sig, ppp, rd, nb], {}, inp
+
+    def clause_names(self, case):
+        return ["ndim=len(ppp)", "nparticle=N", "rhototal=N/prod(boxlength)", "inputs-kept", "s2_results-initialised", "frame:inputs-not-written"]
+
+    def ensures(self, ctx, case, inp, out):
+        d, N, acc = inp["d"], inp["N"], inp["acc"]
+        c = inp["obj"].content
+        yield "ndim=len(ppp)", sv.cmp("==", c.get("ndim", -1), d)
+        yield "nparticle=N", sv.cmp("==", c.get("nparticle", -1), N)
+        V = 1
+        for k in range(d):
+            V = sv.mul(V, acc["L"](k))
+        rho = c.get("rhototal")
+        yield "rhototal=N/prod(boxlength)", (sv.cmp("==", rho, sv.div(N, V)) if sv.is_scalar(sv.norm(rho)) and rho is not None else False)
+        same = lambda a, b: (isinstance(a, A.Arr) and isinstance(b, A.Arr) and a.sid == b.sid)
+        yield "inputs-kept", bool(same(c.get("sigmas"), inp["sig"]) and same(c.get("ppp"), inp["ppp"]) and getattr(c.get("snapshots"), "sid", None) == inp["snaps"].sid
+                                  and c.get("rdelta") is inp["rd"] and c.get("ndelta") is inp["nb"])
+        yield "s2_results-initialised", sv.cmp("==", c.get("s2_results", -1), 0) if sv.is_scalar(sv.norm(c.get("s2_results", -1))) else False
+        watch = set(acc["input_sids"]) | {inp["sig"].sid, inp["ppp"].sid}
+        yield "frame:inputs-not-written", len([e for e in out.state.events if e[0] == "store" and e[1] in watch]) == 0
+
+    def raises(self, ctx, case, inp, out):
+        return None
+
+    def replay(self, case, clause, model, seed):
+        import importlib
+        import random
+        import numpy as np
+        d = int(case[2])
+        mod = importlib.import_module(PAIR)
+        ru = importlib.import_module(RU)
+        rng = random.Random(seed)
+        for k in range(30):
+            T, N, K = rng.choice([1, 2, 3]), rng.choice([1, 2, 5, 12]), rng.choice([1, 2, 3])
+            L = [rng.uniform(2, 9) for _ in range(d)]
+            fs = [ru.SingleSnapshot(timestep=n, nparticle=N, particle_type=np.array([rng.randint(1, K) for _ in range(N)]), positions=np.random.RandomState(k).rand(N, d),
+                                    boxlength=np.array(L), boxbounds=np.array([[0.0, x] for x in L]), realbounds=None, hmatrix=np.diag(L)) for n in range(T)]
+            try:
+                obj = mod.S2(ru.Snapshots(nsnapshots=T, snapshots=fs), np.ones((K, K)) * 0.2, np.array([1] * d), 0.02, 50)
+            except Exception as e:
+                return {"ran": True, "failed": True, "inputs": {"N": N, "T": T, "boxlength": L}, "detail": f"raises {type(e).__name__}: {e}"}
+            want = N / float(np.prod(L))
+            if obj.ndim != d or obj.nparticle != N or abs(obj.rhototal - want) > 1e-12 * want:
+                return {"ran": True, "failed": True, "inputs": {"N": N, "boxlength": L}, "detail": f"ndim={obj.ndim} nparticle={obj.nparticle} rhototal={obj.rhototal}, expected {d}, {N}, {want}"}
+        return {"ran": True, "failed": False, "searched": 30}
+
+
+UNITS = [Gyration(), S2Integral(), Nematic(), Tetrahedral(), ParticleS2(), S2Init()]
 
 HELPERS = [("PyMatterSim.utils.funcs", "grid_gaussian"), ("PyMatterSim.utils.funcs", "kronecker")]
 
